@@ -20,7 +20,7 @@
 
 import pickle
 from functools import reduce
-from os import makedirs
+from os import makedirs, replace
 from os.path import isdir, isfile, join
 from warnings import warn
 
@@ -428,8 +428,6 @@ def optimize_kl(likelihood_energy,
                     overwrite=True)
 
             if _MPI_master(comm(iglobal)):
-                with open(join(output_directory, "last_finished_iteration"), "w") as f:
-                    f.write(str(iglobal))
                 _pickle_save_values(iglobal, 'energy_history', energy_history)
                 if plot_energy_history:
                     _plot_energy_history(iglobal, energy_history)
@@ -439,6 +437,12 @@ def optimize_kl(likelihood_energy,
         _barrier(comm(iglobal))
 
         _counting_report(count, iglobal, comm)
+
+        # Mark the iteration as finished only after all files that belong to
+        # it have been written. Otherwise `resume` may find an incomplete state.
+        if output_directory is not None and _MPI_master(comm(iglobal)):
+            _atomic_write(join(output_directory, "last_finished_iteration"),
+                          str(iglobal), "w")
 
         _handle_inspect_callback(inspect_callback, sl, iglobal)
         _barrier(comm(iglobal))
@@ -468,11 +472,19 @@ def _file_name_by_strategy(iglobal, save_strategy='global_strategy'):
     raise RuntimeError
 
 
+def _atomic_write(file_name, content, mode):
+    """Write `content` to a temporary file and move it into place such that an
+    interruption never leaves a partially written file behind."""
+    tmp_name = file_name + ".tmp"
+    with open(tmp_name, mode) as f:
+        f.write(content)
+    replace(tmp_name, file_name)
+
+
 def _save_random_state():
     from ..random import getState
     file_name = join(_output_directory, "pickle/nifty_random_state")
-    with open(file_name, "wb") as f:
-        f.write(getState())
+    _atomic_write(file_name, getState(), "wb")
 
 
 def _load_random_state():
@@ -485,8 +497,7 @@ def _load_random_state():
 def _pickle_save_values(index, name, val):
     file_name = join(_output_directory, f"pickle/{name}_")
     file_name += _file_name_by_strategy(index)
-    with open(file_name, "wb") as f:
-        pickle.dump(val, f)
+    _atomic_write(file_name, pickle.dumps(val), "wb")
 
 
 def _pickle_load_values(index, name):
